@@ -181,6 +181,9 @@ def Data.allFinite : Data Val → Bool
 inductive SKind
   | pyInt | pyFloat | pyBool | npFloat64      -- `isinstance(·, (float, int))` holds
   | npInt64 | npFloat32 | str | array | other -- it does not
+  -- further foreign operands, none of them an `int` / `float`: list, tuple, `fractions.Fraction`,
+  -- `decimal.Decimal`, complex, `None`, dict, `np.bool_`, 0-d array, NumPy integer / float of other widths
+  | pyList | pyTuple | fraction | decimal | complex | none | dict | npBool | array0d | npInt32 | npFloat16
   deriving DecidableEq, Repr
 
 def SKind.accepted : SKind → Bool
